@@ -211,19 +211,21 @@ def qmul_np(p, q):
 
 
 def ref_dots(X, Y, S, mode):
-    """brute force, numpy only: D[i ++ j] = max_s term(y_j x_i^-1, s); self's flags are dropped
-    (angle_with_outer works on self.unit).
-    mode "eager": Rotation.dot_outer semantics -- 0 where exactly one of (pair, s) is improper, clip at 1;
-    mode "lazy":  what _dot_outer_dask computes -- proper symmetry elements only, orientation flags unused"""
+    """brute force, numpy only: D[i ++ j] = max_s term(y_j x_i^-1, s); the pair is improper when exactly
+    one of x_i, y_j is (angle_with_outer works on self.unit, which keeps the flags of self).
+    mode "eager":   Rotation.dot_outer semantics -- 0 where exactly one of (pair, s) is improper, clip at 1;
+                    since the repair of _dot_outer_dask this is what both modes compute;
+    mode "noflags": what _dot_outer_dask computed before the repair -- proper symmetry elements only,
+                    orientation flags unused (kept to give a regression its old signature)"""
     xs, ys = X.data.reshape(-1, 4), Y.data.reshape(-1, 4)
-    fy = Y.improper.reshape(-1)
+    fx, fy = X.improper.reshape(-1), Y.improper.reshape(-1)
     sd, sf = S.data.reshape(-1, 4), S.improper.reshape(-1)
     out = np.zeros((len(xs), len(ys)))
     for i, x in enumerate(xs):
         xi = x * np.array([1, -1, -1, -1])
         for j, y in enumerate(ys):
             m = qmul_np(y, xi)
-            fm = bool(fy[j])
+            fm = bool(fy[j]) != bool(fx[i])
             best = 0.0
             for s, f in zip(sd, sf):
                 d = abs(float(np.dot(m, s)))
@@ -275,10 +277,11 @@ if want("ori"):
         if not (ae.shape == al.shape and close(al, ae, 1e-6)):
             # classify against numpy references (indexed self.shape + other.shape)
             R1 = to_angle(ref_dots(X, Y, S, "eager"))
-            R0 = to_angle(ref_dots(X, Y, S, "lazy"))
-            if al.shape == R0.shape and close(al, R0, 1e-6) and not close(R0, R1, 1e-6) and Y.improper.any():
+            R0 = to_angle(ref_dots(X, Y, S, "noflags"))
+            if al.shape == R0.shape and close(al, R0, 1e-6) and not close(R0, R1, 1e-6) and (
+                    X.improper.any() or Y.improper.any()):
                 fail("Orientation.angle_with_outer:lazy:improper-orientation-ignored",
-                     f"angle_with_outer(lazy=True) ignores the improper flags of `other`: "
+                     f"angle_with_outer(lazy=True) ignores the improper flags of the orientations: "
                      f"self {ss} other {so} groups {g1},{g2}, chunk {k}", rep)
             elif al.shape != ae.shape or (len(ss + so) > 1 and al.shape == swap_groups(R0, len(ss)).shape and (
                     close(al, swap_groups(R0, len(ss)), 1e-6) or close(al, swap_groups(R1, len(ss)), 1e-6))):
@@ -295,7 +298,7 @@ if want("ori"):
         st("odm")
         if not (ge.shape == gl.shape and close(gl, ge, 1e-6)):
             R1 = to_angle(ref_dots(X, X, G1, "eager"))
-            R0 = to_angle(ref_dots(X, X, G1, "lazy"))
+            R0 = to_angle(ref_dots(X, X, G1, "noflags"))
             if close(gl, R0, 1e-6) and not close(R0, R1, 1e-6) and X.improper.any():
                 fail("Orientation.get_distance_matrix:lazy:improper-orientation-ignored",
                      f"get_distance_matrix(lazy=True) ignores the improper flags of the orientations: group {g1}, "
